@@ -365,9 +365,14 @@ func (c *Ctx) checkDateForm(rel, E, LOC string, tsForm linForm) {
 			var w []int64
 			usesLoc, usesEpoch, maskOK := false, false, false
 			for _, e := range t.Events {
-				if e.Kind == EvCall && e.callName() == "fmt.Sprintf" {
-					// one or several zero-padded decimal verbs per format, nothing else
-					f, ok := constStr(e.Args[0])
+				if e.Kind == EvCall && (e.callName() == "fmt.Sprintf" || e.callName() == "fmt.Fprintf" || e.callName() == "fmt.Appendf") && len(e.Args) >= 1 {
+					// one or several zero-padded decimal verbs per format, nothing else (Fprintf into a builder and
+					// Appendf onto a slice produce the same text: the format is their second argument)
+					fa := e.Args[0]
+					if e.callName() != "fmt.Sprintf" && len(e.Args) >= 2 {
+						fa = e.Args[1]
+					}
+					f, ok := constStr(fa)
 					rest := f
 					for ok && rest != "" {
 						var n int64
@@ -394,7 +399,7 @@ func (c *Ctx) checkDateForm(rel, E, LOC string, tsForm linForm) {
 				if e.Kind == EvCall && e.callName() == "(time.Time).In" && len(e.Args) == 2 && e.Args[1].Key() == LOC {
 					usesLoc = true
 				}
-				if e.Kind == EvCall && e.callName() == "time.Unix" {
+				if e.Kind == EvCall && (e.callName() == "time.Unix" || e.callName() == "time.UnixMilli") {
 					for _, a := range e.Args {
 						if a.mentions(E) {
 							usesEpoch = true
